@@ -876,6 +876,60 @@ theorem C16_history_class_matches_decision (m : Nat) (u : Bool) (hist : List (Op
     · intro hq; rw [hl2]; exact (C16_class_matches_retry e hl hm).2.mp hq
     · intro hq; rw [hl2]; exact (C16_class_matches_retry e hl hm).1.mp hq
 
+/-! ### several statuses for one recipient within one attempt (round 10) -/
+
+theorem setStatuses_append_some (cur : Option Err) (sts : List (Option Err)) (e : Err) :
+    setStatuses cur (sts ++ [some e]) = some e := by
+  induction sts generalizing cur with
+  | nil => simp [setStatuses]
+  | cons a r ih => cases a <;> simp [setStatuses, ih]
+
+/-- **C16 (several statuses in one attempt).** Whatever a target reported for the recipient earlier
+in the attempt (failures of any class, successes, any number), the entry `tryDelivery` works on is the
+last failure reported … -/
+theorem C16_statuses_last_failure_is_the_entry (sts : List (Option Err)) (e : Err) :
+    lastStatus (sts ++ [some e]) = some e := setStatuses_append_some none sts e
+
+/-- … and the record and the decision are taken on that ONE value: the record is its conversion,
+class-coherent, a retry means a 4yz record, giving up with tries left means a 5yz record — no
+earlier status of the attempt has a say in either. -/
+theorem C16_statuses_record_and_decision_of_one_failure (mt : Nat) (s : RcptState)
+    (sts : List (Option Err)) (e : Err) (h : LeavesCoherent e) (hm : MarkersAgree e) :
+    (attemptStep mt s (lastStatus (sts ++ [some e]))).1.stored = some (toSMTPErr e) ∧
+    StoredCoherent (toSMTPErr e) ∧
+    ((attemptStep mt s (lastStatus (sts ++ [some e]))).2 = .retry → (toSMTPErr e).code / 100 = 4) ∧
+    ((attemptStep mt s (lastStatus (sts ++ [some e]))).2 = .giveUp → s.tries + 1 < mt →
+      (toSMTPErr e).code / 100 = 5) := by
+  rw [C16_statuses_last_failure_is_the_entry]
+  have hc := C16_class_matches_retry e h hm
+  refine ⟨?_, C16_queue_record_classes_agree e h hm, ?_, ?_⟩
+  · simp only [attemptStep]; split <;> rfl
+  · intro hr
+    apply hc.1.mp
+    simp only [attemptStep] at hr
+    split at hr
+    · simp at hr
+    · rename_i hn
+      simp only [Bool.or_eq_true, Bool.not_eq_true', decide_eq_true_eq, not_or] at hn
+      simp [queueRetries]; cases hq : isTemporaryOrUnspec e <;> simp_all
+  · intro hg hlt
+    apply hc.2.mp
+    simp only [attemptStep] at hg
+    split at hg
+    · rename_i hn
+      simp only [Bool.or_eq_true, Bool.not_eq_true', decide_eq_true_eq] at hn
+      rcases hn with hn | hn
+      · simpa [queueRetries] using hn
+      · omega
+    · simp at hg
+
+/-- the reviewers' scenario: 451 then 550 in one attempt — recorded 550 5.1.1 and NOT retried;
+550 then 451 — recorded 451 and retried -/
+example : attemptStep 3 .init (lastStatus [some (.smtp 451 ⟨4,4,1⟩ [120]), some (.smtp 550 ⟨5,1,1⟩ [120])]) =
+    (⟨0, some ⟨550, some ⟨5,1,1⟩, .text [120]⟩⟩, .giveUp) := by decide
+example : attemptStep 3 .init (lastStatus [some (.smtp 550 ⟨5,1,1⟩ [120]), none, some (.smtp 451 ⟨4,4,1⟩ [120])]) =
+    (⟨1, some ⟨451, some ⟨4,4,1⟩, .text [120]⟩⟩, .retry) := by decide
+
 /-- The queue gives up after at most `maxTries` attempts (counting those already made). -/
 theorem C16_history_length_bounded (m : Nat) (u : Bool) (hist : List (Option Err)) :
     ∀ s : RcptState, (runHist m u s hist).length + s.tries ≤ max m (s.tries + 1) := by
@@ -1403,5 +1457,144 @@ theorem C16_downstream_auth_transaction_coherent (attempts : List (Option Err)) 
 example : downAuthTxErr [some .plain, none] .plain (.reply 535 ⟨5,7,8⟩ [120]) .ok = some (.rawSmtp 535 ⟨5,7,8⟩ [120]) := by rfl
 example : queueRetries (.rawSmtp 535 ⟨5,7,8⟩ [120]) = false ∧ toSMTPErr (.rawSmtp 535 ⟨5,7,8⟩ [120]) = ⟨535, some ⟨5,7,8⟩, .text [120]⟩ := by decide
 example : queueRetries (.rawSmtp 454 ⟨4,7,0⟩ [120]) = true ∧ annOk 454 ⟨4,7,0⟩ = true ∧ annOk 535 ⟨5,7,8⟩ = true := by decide
+
+/-! ### check.dnsbl: several lists failing at once (round 10) -/
+
+theorem pickOf_mem (e0 : Err) (rest : List Err) (pick : Nat) : pickOf e0 rest pick ∈ e0 :: rest := by
+  unfold pickOf
+  split
+  · rename_i e h; exact List.mem_of_getElem? h
+  · simp
+
+/-- **C16 (DNSBL, which failure is reported).** When lookups fail, the rejection is the helper-pair
+rejection of ONE of the failed lookups, whichever the scheduler let win … -/
+theorem C16_dnsbl_rejection_is_of_one_failed_lookup (rt qt : Int) (outs : List ListOut) (pick : Nat)
+    (h : failedLookups outs ≠ []) :
+    ∃ e ∈ failedLookups outs, checkLists rt qt outs pick = .reject (dnsblLookupErr e) := by
+  unfold checkLists
+  cases hf : failedLookups outs with
+  | nil => exact absurd hf h
+  | cons e0 rest => exact ⟨pickOf e0 rest pick, pickOf_mem e0 rest pick, rfl⟩
+
+/-- … and **every rejection of the check is good**: for any number of lists, any outcomes (any error
+values of the failed lookups — temporary, permanent, wrapped, cancelled), any thresholds and any
+scheduling, basic and enhanced code of the rejection are of one class, the queue records it
+coherently and retries it exactly when it is recorded 4yz. -/
+theorem C16_dnsbl_rejection_good (rt qt : Int) (outs : List ListOut) (pick : Nat) (e : Err)
+    (h : checkLists rt qt outs pick = .reject e) : Good e := by
+  unfold checkLists at h
+  split at h
+  · injection h with h; subst h
+    exact good_of_top_annotated _ _ _ _
+      (annOk_of_pairOk (C16_helper_pair_coherent _ 451 554 ⟨0, 7, 0⟩ rfl rfl))
+  · split at h
+    · injection h with h; subst h; exact good_of_smtp_leaf _ _ _ (by decide)
+    · split at h <;> cases h
+
+/-- the reviewers' scenario: the first list fails permanently, the second temporarily — either
+rejection that can come out is coherent (554 5.7.0 or 451 4.7.0), never a mix -/
+example : checkLists 1 1 [.failed (.net false), .failed (.net true)] 0 =
+    .reject (.smtpWrap 554 ⟨5,7,0⟩ dnsblErrMsg (.net false)) := by rfl
+example : checkLists 1 1 [.failed (.net false), .failed (.net true)] 1 =
+    .reject (.smtpWrap 451 ⟨4,7,0⟩ dnsblErrMsg (.net true)) := by rfl
+example : checkLists 2 1 [.listed 1, .clean] 0 = .quarantine := by rfl
+
+/-- **C16 (policy lookups).** Whatever error the MX lookup of the sender's domain / the rDNS lookup
+fails with (an interrupted lookup included), the verdict of require_mx_record /
+require_matching_rdns is good. -/
+theorem C16_policy_lookup_failure_good (det : Nat) (e : Err) : Good (policyLookupErr det e) :=
+  good_of_top_annotated _ _ _ _
+    (annOk_of_pairOk (C16_helper_pair_coherent e 450 550 ⟨0, 7, det⟩ rfl rfl))
+
+/-! ### sessions of several transactions (round 10) -/
+
+/-- what is kept in `deliveryErr` is the conversion of the CURRENT transaction's own failure under the
+CURRENT transaction's SMTPUTF8 flag -/
+def SessInv (s : Sess) : Prop :=
+  s.isOpen = false → ∀ r, s.deliveryErr = some r → ∃ e, s.plan = some e ∧ r = wrapErr (!s.utf8) e
+
+theorem sessInv_init : SessInv .init := by intro _ r h; simp [Sess.init] at h
+
+theorem sessStep_inv (d : Bool) (s : Sess) (c : SessCmd) (h : SessInv s) : SessInv (sessStep d s c).1 := by
+  cases c with
+  | mail u o =>
+    simp only [sessStep]
+    split
+    · exact h
+    · split
+      · intro _ r hr; simp at hr
+      · split
+        · exact h
+        · intro ho; simp at ho
+  | rcpt =>
+    simp only [sessStep]
+    split
+    · exact h
+    · split
+      · exact h
+      · split
+        · exact h
+        · rename_i hnone
+          split
+          · rename_i e he
+            intro _ r hr
+            refine ⟨e, he, ?_⟩
+            simp at hr; exact hr.symm
+          · intro ho; simp at ho
+  | rset => intro _ r hr; simp [sessStep] at hr
+
+theorem sessAfter_inv (d : Bool) (cmds : List SessCmd) : ∀ s, SessInv s → SessInv (sessAfter d s cmds) := by
+  induction cmds with
+  | nil => intro s h; exact h
+  | cons c r ih => intro s h; exact ih _ (sessStep_inv d s c h)
+
+/-- **C16 (sessions, a reply answers its own transaction).** After ANY sequence of MAIL / RCPT / RSET
+commands (any number of earlier transactions, failed or not, with any SMTPUTF8 flags), a refusal of
+RCPT is the conversion of the failure of the transaction that is open NOW under ITS SMTPUTF8 flag … -/
+theorem C16_session_rcpt_reply_is_of_its_transaction (d : Bool) (cmds : List SessCmd) (r : Reply)
+    (h : (sessStep d (sessAfter d .init cmds) .rcpt).2 = .err r) :
+    ∃ e, (sessAfter d .init cmds).plan = some e ∧ r = wrapErr (!(sessAfter d .init cmds).utf8) e := by
+  have hinv := sessAfter_inv d cmds .init sessInv_init
+  generalize sessAfter d .init cmds = s at h hinv
+  simp only [sessStep] at h
+  split at h
+  · cases h
+  · split at h
+    · cases h
+    · split at h
+      · rename_i hopen _ r' hr'
+        injection h with h; subst h
+        exact hinv (by simpa using hopen) r' hr'
+      · split at h
+        · rename_i e he
+          injection h with h
+          exact ⟨e, he, h.symm⟩
+        · cases h
+
+/-- … so a transaction that did not ask for SMTPUTF8 is never answered with non-ASCII text, whatever
+was said to earlier transactions of the session. -/
+theorem C16_session_rcpt_reply_ascii (d : Bool) (cmds : List SessCmd) (r : Reply)
+    (hu : (sessAfter d .init cmds).utf8 = false)
+    (h : (sessStep d (sessAfter d .init cmds) .rcpt).2 = .err r) :
+    match r.msg with
+    | .text cps => ∀ ch ∈ cps, ch < 128
+    | _ => True := by
+  obtain ⟨e, _, hr⟩ := C16_session_rcpt_reply_is_of_its_transaction d cmds r h
+  rw [hr, hu]
+  exact C16_non_utf8_reply_is_ascii e
+
+/-- … and it is class-coherent when the failure is. -/
+theorem C16_session_rcpt_reply_coherent (d : Bool) (cmds : List SessCmd) (r : Reply)
+    (hok : ∀ e, (sessAfter d .init cmds).plan = some e → LeavesCoherent e)
+    (h : (sessStep d (sessAfter d .init cmds) .rcpt).2 = .err r) : Coherent r := by
+  obtain ⟨e, he, hr⟩ := C16_session_rcpt_reply_is_of_its_transaction d cmds r h
+  rw [hr]; exact C16_endpoint_reply_classes_agree _ e (hok e he)
+
+/-- the reviewers' scenario: failed deferred MAIL under SMTPUTF8 (non-ASCII text), RCPT, RSET, MAIL
+without SMTPUTF8 that is fine, RCPT: accepted; and with a failing second MAIL: its own, mangled text -/
+example : sessRun true .init [.mail true (some (.smtp 550 ⟨5,1,1⟩ [1055])), .rcpt, .rset, .mail false none, .rcpt] =
+    [.ok, .err ⟨550, some ⟨5,1,1⟩, .text [1055]⟩, .ok, .ok, .ok] := by rfl
+example : sessRun true .init [.mail true (some (.smtp 550 ⟨5,1,1⟩ [1055])), .rcpt, .mail false (some (.smtp 450 ⟨4,2,0⟩ [233])), .rcpt] =
+    [.ok, .err ⟨550, some ⟨5,1,1⟩, .text [1055]⟩, .ok, .err ⟨450, some ⟨4,2,0⟩, .text [63]⟩] := by rfl
 
 end MaddyVerif.C16
